@@ -909,6 +909,10 @@ def if_then_else(cond, truev, falsev):
         return falsev() if callable(falsev) else falsev
     if isinstance(truev, list):
         return [if_then_else(cond, t, f) for t, f in zip(truev, falsev)]
+    if isinstance(truev, RArray) or isinstance(falsev, RArray):
+        if not (isinstance(truev, RArray) and isinstance(falsev, RArray)):
+            raise MustRaise("array selected against a non-array")
+        return RArray([if_then_else(cond, t, f) for t, f in zip(truev.arr, falsev.arr)])
     r = truev if c else falsev
     # result type follows falsev + cond*(truev-falsev)
     kinds = {getattr(truev, "kind", "plain"), getattr(falsev, "kind", "plain")}
@@ -981,19 +985,52 @@ class RArray:
         self.arr[self._ix(item)] = value
 
 
+def _arr_binop(a, b, f):
+    if isinstance(b, RArray):
+        return RArray([f(x, y) for x, y in zip(a.arr, b.arr)])
+    return RArray([f(x, b) for x in a.arr])
+
+
+RArray.__add__ = lambda self, other: _arr_binop(self, other, lambda x, y: x + y)
+RArray.__radd__ = RArray.__add__
+RArray.__sub__ = lambda self, other: _arr_binop(self, other, lambda x, y: x - y) if isinstance(other, RArray) else NotImplemented
+RArray.__mul__ = lambda self, other: RArray([other * x for x in self.arr]) if isinstance(other, (int, RInt, RBool)) else NotImplemented
+RArray.__rmul__ = RArray.__mul__
+
+
+def _arr_assert_eq(self, other):
+    if len(self.arr) != len(other.arr):
+        raise MustRaise("arrays not of the same length")
+    for l, r in zip(self.arr, other.arr):
+        if plain_int(l) != plain_int(r):
+            raise MustRaise("arrays differ")
+
+
+RArray.assert_eq = _arr_assert_eq
+RArray.joined = lambda self: [v for ar in self.arr for v in ar.arr]
+
+
 class RArrayRow(RArray):
     def __init__(self, a):
         self.arr = list(a.arr)
 
     def __setitem__(self, item, value):
-        raise MustRaise("cannot set value in a returned row")
+        raise TypeError("cannot set value in a returned row")
 
 
 def lin_comb(cofs, vals):
     return sum([c * v for c, v in zip(cofs, vals)])
 
 
-NAMES.update(Array=RArray, lin_comb=lin_comb)
+def scalar_mul(a, b):
+    return [a * bi for bi in b]
+
+
+def vector_sub(a, b):
+    return [ai - bi for ai, bi in zip(a, b)]
+
+
+NAMES.update(Array=RArray, lin_comb=lin_comb, scalar_mul=scalar_mul, vector_sub=vector_sub)
 
 
 def poseidon_hash(inputs):
